@@ -322,7 +322,7 @@ var readOnlyKeeperMethods = map[string]bool{
 	"GetDelegatorWithdrawAddr": true, "GetChannel": true, "GetDenomTrace": true, "GetAuthorizations": true, "GetBalance": true,
 	"GetAllBalances": true, "GetSupply": true, "IterateAccountBalances": true, "IterateTotalSupply": true, "GetTokenPairID": true, "GetTokenPair": true,
 	"GetUnbondingDelegation": true, "GetRedelegation": true, "GetRedelegations": true, "GetValidators": true, "GetBondedValidatorsByPower": true,
-	"GetCodec": true, "IsERC20Enabled": true, "GetCoinAddress": true, "GetERC20Map": true, "GetDenomMap": true, "DenomHashPath": true,
+	"GetCodec": true, "DenomHash": true, "DenomTrace": true, "DenomTraces": true, "DenomPathFromHash": true, "IsERC20Enabled": true, "GetCoinAddress": true, "GetERC20Map": true, "GetDenomMap": true, "DenomHashPath": true,
 }
 
 // isCosmosEffect: a call that changes Cosmos-side state — any MsgServer method, or a keeper method
@@ -342,6 +342,9 @@ func isCosmosEffect(ci CallInfo) bool {
 	}
 	if readOnlyKeeperMethods[ci.Name] || strings.HasPrefix(ci.Name, "NewMsgServer") {
 		return false
+	}
+	if ci.Recv == "Querier" || ci.Recv == "queryServer" || ci.Recv == "QueryServer" {
+		return false // gRPC query servers of the modules: read-only by construction
 	}
 	if strings.HasPrefix(ci.Name, "Get") || strings.HasPrefix(ci.Name, "Has") || strings.HasPrefix(ci.Name, "Iterate") || strings.HasPrefix(ci.Name, "Is") {
 		return false
